@@ -94,6 +94,8 @@ def generate(repo, outpath):
     def sargs(c, p):
         k = caps[(c, p)]
         return '%s, %s, %s' % (c, p, ', '.join('true' if x in k else 'false' for x in 'ghd'))
+    T = ['// GENERATED by tools/accgen.py - per-class parameter tables (fingerprint and random fill) - do not edit',
+         'namespace {']
     L = ['// GENERATED by tools/accgen.py - do not edit', 'namespace {']
     for c in classes:
         ps = [p for cc, p in pairs if cc == c]
@@ -103,12 +105,20 @@ def generate(repo, outpath):
         else:
             L.append('%s* make_%s() { static std::vector<std::unique_ptr<%s>> keep; keep.emplace_back(new %s(%s)); return keep.back().get(); }'
                      % (c, c, c, c, VALUE[c]))
-        L.append('std::string others_%s(const %s& c, const char* skip) {' % (c, c))
-        L.append('  std::ostringstream o;')
+        T.append('std::string others_%s(const %s& c, const char* skip) {' % (c, c))
+        T.append('  std::ostringstream o;')
         for p in ps:
-            L.append('  if (std::string(skip) != "%s") o << "%s=" << state_of<%s>(c) << "/";' % (p, p, sargs(c, p)))
-        L.append('  return o.str();')
-        L.append('}')
+            T.append('  if (std::string(skip) != "%s") o << "%s=" << state_of<%s>(c) << "/";' % (p, p, sargs(c, p)))
+        T.append('  return o.str();')
+        T.append('}')
+        T.append('void fill_%s(%s& c, Rng& rng) {' % (c, c))
+        T.append('  (void)c; (void)rng;')
+        for p in ps:
+            if p.endswith('Id') and p.startswith('Audio'):
+                continue      # element IDs are set by the scripts, not by the random fill
+            T.append('  maybe_set<%s, %s>(c, rng, std::integral_constant<bool, %s>());' % (c, p, 'true' if 's' in caps[(c, p)] else 'false'))
+        T.append('}')
+    T += ['}  // namespace', '']
     L.append('void run_all_probes(std::ostream& out) {')
     for c, p in pairs:
         if c in classes:
@@ -117,10 +127,10 @@ def generate(repo, outpath):
     for c in skipped:
         L.append('  out << "acc-skipped %s\\n";' % c)
     L += ['}', '}  // namespace', '']
-    text = '\n'.join(L)
-    old = open(outpath).read() if os.path.exists(outpath) else None
-    if old != text:
-        open(outpath, 'w').write(text)
+    for path, text in ((outpath, '\n'.join(L)), (os.path.join(os.path.dirname(outpath), 'probe_tables.inc'), '\n'.join(T))):
+        old = open(path).read() if os.path.exists(path) else None
+        if old != text:
+            open(path, 'w').write(text)
     return dict(pairs=len([1 for c, p in pairs if c in classes]), classes=len(classes), skipped=skipped)
 
 
